@@ -37,7 +37,7 @@ from functools import lru_cache
 
 from nutree.common import CONNECTORS
 
-from .. import gen, view
+from .. import gen, hist, view
 from ..harness import Result, Violation, clip, parallel, seed
 from .mut import _spec_json, spec_from_json
 
@@ -453,6 +453,43 @@ def _chunk(chunk, prop):
     return res
 
 
+HIST_STYLES = (None, "round43c", "list", "custom6var")
+
+
+def _mutated(spec, mut):
+    """fresh tree, every accessor evaluated once (hist.warm), one structural change -> Info of the changed tree"""
+    tree, nodes = gen.build(spec)
+    hist.warm(tree, nodes)
+    if not hist.apply(tree, nodes, mut, gen.make_data_factory(spec.flavour), typed=spec.typed):
+        return None
+    if view.wf_violations(tree):
+        return None  # a broken structure after a single change is C01's finding, not a rendering question
+    return Info(tree)
+
+
+def _chunk_hist(chunk, prop):
+    res = Result(prop)
+    counts: dict = {}
+    for spec in chunk:
+        try:
+            for mut in hist.mutations(spec):
+                info = _mutated(spec, mut)
+                if info is None:
+                    continue
+                for start in range(-1, len(info.nodes)):
+                    for st in HIST_STYLES:
+                        for add_self in ((True,) if start == -1 else (True, False)):
+                            diffs = check_one(info, spec.typed, start, st, None, add_self, "template", "\n", decode=True)
+                            res.add_case(f"{spec.short()}|{mut}@{start}|{st}|{add_self}", nontrivial=True)
+                            for clause, text in diffs:
+                                _add_violation(res, counts, Violation(prop, clause, func_name(start, st), {
+                                    "kind": "format", "spec": _spec_json(spec), "after": mut, "start": start, "style": st, "title": None,
+                                    "add_self": add_self, "repr": "template", "join": "\n"}, clip(f"after {mut} on a tree whose accessors had all been evaluated: " + text)))
+        except Exception:  # noqa: BLE001
+            res.errors.append(f"{spec.short()}: {traceback.format_exc()[-1000:]}")
+    return res
+
+
 def run(prop: str, tier: str, only=None) -> Result:
     total = Result(prop)
     n_full = 5 if tier == "quick" else 6
@@ -464,6 +501,13 @@ def run(prop: str, tier: str, only=None) -> Result:
     total.bounds["Tree.format / Node.format / format_iter"] = (
         f"all ordered forests with <= {n_full} nodes (distinct labels; clone labelling; typed) + equal data under distinct ids and node == parent / tree-name labels <= 4 nodes, the Tree and every start node, {per}; "
         "decoder on template repr; invalid style name / tuple length"
+    )
+    n_hist = 4 if tier == "quick" else 5
+    total.merge(parallel(_chunk_hist, shape_specs(n_hist, 1), prop, prop=prop))
+    total.bounds["format after a change (histories)"] = (
+        f"all ordered forests with 1..{n_hist} nodes (distinct labels; clone labelling; typed): every accessor of the tree and of every node evaluated once, then each single change "
+        "(remove with / without keep_children, move_to every other position appended / prepended, add appended / prepended, remove_children, sort_children, deep copy below every other node), "
+        f"then the Tree and every start node in styles {HIST_STYLES}, add_self on/off, template repr, with the decoder"
     )
     if tier != "quick":
         rng = random.Random(seed() * 1_000_003 + 16)
@@ -481,8 +525,13 @@ def run(prop: str, tier: str, only=None) -> Result:
 
 def replay(witness: dict, prop: str) -> list[tuple[str, str]]:
     spec = spec_from_json(witness["spec"])
-    tree, _ = gen.build(spec)
-    info = Info(tree)
+    if witness.get("after"):
+        info = _mutated(spec, witness["after"])
+        if info is None:
+            return []
+    else:
+        tree, _ = gen.build(spec)
+        info = Info(tree)
     if witness.get("kind") == "badstyle":
         return check_bad_style(info, witness["start"], witness["add_self"], witness["title"])[0]
     return check_one(info, spec.typed, witness["start"], witness["style"], witness["title"], witness["add_self"],
